@@ -1,5 +1,14 @@
 (* C10 driver: runs the queries on the STATEFUL model (scratch threaded through all queries) and
-   prints the answers; "DIRTY" is appended if some node of a pool entry still has scratch data. *)
+   prints the answers; "DIRTY" is appended if some node of a pool entry still has scratch data.
+   Repeat query  r <count> <q0> <q1>  (q0, q1 two sub-queries of one kind w / n / e on one pool entry;
+   repetition t runs q0 for even t and q1 for odd t; only the LAST answer is printed): up to 300
+   repetitions the stateful model really runs every repetition (scratch threaded through them, DIRTY
+   checked after each); beyond that it runs the LAST repetition once.  That is sound for the MODEL
+   because its queries are pure: by theorem C10_queries_commute (Properties/C10.v) any sequence of
+   public folds / counts from the all-empty scratch answers call by call like the pure functions and
+   ends all-empty, so the 65535 skipped repetitions change neither the answer of the last one nor the
+   scratch state it starts from.  (Whether the IMPLEMENTATION is equally indifferent to them is what the
+   case tests: the harness runs every repetition on the real builder.) *)
 let () =
   List.iter (fun line ->
     match split_ws line with
@@ -15,7 +24,28 @@ let () =
          let dirty () = Array.exists (fun p -> List.exists (fun n -> !s n <> None) (nodes p)) pool in
          let push a = outs := (if dirty () then a ^ " DIRTY" else a) :: !outs in
          let one = n_of_int 1 in
+         let sub_len = function "w" -> 2 + 2 * total | "e" -> 2 + total | "n" -> 2 | _ -> failwith "bad repeat" in
          let rec go = function
+           | "r" :: c :: (kind :: _ as r) ->
+             let c = ios c in
+             let len = sub_len kind in
+             let (q0, r) = take len r in
+             let (q1, r) = take len r in
+             if c <= 300 then begin
+               (* run them all; keep the last answer (and any DIRTY mark an earlier repetition produced) *)
+               let keep = !outs in
+               let was_dirty = ref false in
+               for t = 0 to c - 1 do
+                 outs := [];
+                 go (if t mod 2 = 0 then q0 else q1);
+                 (match !outs with [a] when t < c - 1 && String.length a > 6 && String.sub a (String.length a - 6) 6 = " DIRTY" -> was_dirty := true | _ -> ())
+               done;
+               (match !outs with
+                | [a] -> outs := (if !was_dirty then a ^ " DIRTY-DURING-REPEAT" else a) :: keep
+                | _ -> failwith "bad repeat")
+             end else
+               go (if (c - 1) mod 2 = 0 then q0 else q1);
+             go r
            | "w" :: i :: r ->
              let (ws, r) = take (2 * total) r in
              let wa = Array.of_list ws in
